@@ -29,6 +29,32 @@ def _imports():
     return es, Function, ErrorCalculator
 
 
+BTYPES = ["float", "pyint", "npint", "tuple_int", "mixed_int_float", "mixed_float_int"]
+
+
+def typed_bounds(case):
+    """the domain bounds in the Python type the case prescribes (the same box: the model's boxes are rationals).
+    Callers pass python ints, tuples, integer numpy arrays or a mixture as naturally as float arrays."""
+    bt = case.get("btype", "float")
+    A = [float(x) for x in case["a"]]
+    B = [float(x) for x in case["b"]]
+    if bt != "float":
+        assert all(x == int(x) for x in A + B), "integer-typed bounds need integer values"
+    if bt == "float":
+        return np.array(A), np.array(B)
+    if bt == "pyint":
+        return [int(x) for x in A], [int(x) for x in B]
+    if bt == "npint":
+        return np.array([int(x) for x in A], dtype=int), np.array([int(x) for x in B], dtype=int)
+    if bt == "tuple_int":
+        return tuple(int(x) for x in A), tuple(int(x) for x in B)
+    if bt == "mixed_int_float":
+        return tuple(int(x) for x in A), [float(x) for x in B]
+    if bt == "mixed_float_int":
+        return [float(x) for x in A], [int(x) for x in B]
+    raise ValueError(bt)
+
+
 def make_impl(case):
     es, Function, ErrorCalculator = _imports()
 
@@ -61,8 +87,7 @@ def make_impl(case):
             return r
 
     dim = case["dim"]
-    a = np.array([float(x) for x in case["a"]])
-    b = np.array([float(x) for x in case["b"]])
+    a, b = typed_bounds(case)
     f = TableF(str(case.get("salt", 0)))
     grid = es.TrapezoidalGrid(a, b, boundary=True)
     op = es.Integration(f, grid=grid, dim=dim, reference_solution=None)
@@ -382,7 +407,7 @@ def gen_round(ctx, sa, case):
 def run_history(ctx, drv, case, rounds=None, nrounds=0, thorough=False):
     """rounds=None: draw them from the rng (they depend on the implementation's current number of areas)"""
     tags = {"version": case["version"], "lmin": case["lmin"], "dim": case["dim"], "auto": int(case["auto"]),
-            "single": int(case["single"])}
+            "single": int(case["single"]), "btype": case.get("btype", "float")}
     case = dict(case, rounds=[])
     ok = True
 
@@ -495,9 +520,11 @@ def gen_case(ctx, thorough, k):
     single = 0.2 < x < 0.5
     script = r.random() < 0.7
     doms = [r.choice(DOMAINS) for _ in range(dim)] if r.random() < 0.5 else [DOMAINS[0]] * dim
+    integral = all(float(v) == int(v) for d in doms for v in d)
+    btype = r.choice(BTYPES[1:]) if integral and r.random() < 0.5 else "float"
     case = {"kind": "history", "dim": dim, "lmin": lmin, "lmax": lmax, "nrbe": r.choice([0, 1, 1, 2]), "version": version,
             "auto": auto, "single": single, "script": script, "a": [d[0] for d in doms], "b": [d[1] for d in doms],
-            "salt": r.randrange(1000)}
+            "salt": r.randrange(1000), "btype": btype}
     nr = r.randint(1, 6 if dim == 2 else 4) if not thorough else r.randint(2, 9 if dim == 2 else 5)
     return case, nr
 
@@ -543,6 +570,15 @@ def run(ctx):
         ctx.case(pc, nontrivial=pc["c"] > 0, sample=pc if k < 1 else None)
         if not ok and len(ctx.corr_breaks) >= ctx.max_reports:
             break
+    # every run: both split modes with integer-typed and mixed domain bounds (python ints, tuples, integer numpy arrays)
+    for single in (False, True):
+        for bt in BTYPES[1:]:
+            dom = ctx.rng.choice([(0, 1), (-1, 1), (2, 6), (-3, 6)])
+            case = {"kind": "history", "dim": 2, "lmin": 1, "lmax": 2, "nrbe": 1, "version": 0, "auto": False, "single": single,
+                    "script": True, "a": [dom[0]] * 2, "b": [dom[1]] * 2, "salt": 0, "btype": bt}
+            ok, case = run_history(ctx, drv, case, None, 2, thorough)
+            ctx.count("btype_stream_single%d_%s" % (int(single), bt))
+            ctx.case(case, nontrivial=len(case["rounds"]) > 0)
     for k in range(n):
         if ctx.time_left(budget) < 0:
             break
@@ -553,6 +589,7 @@ def run(ctx):
         ctx.count("levels_%d_%d" % (case["lmin"], case["lmax"]))
         ctx.count("mode_auto%d_single%d_script%d" % (int(case["auto"]), int(case["single"]), int(case["script"])))
         ctx.count("rounds", len(case["rounds"]))
+        ctx.count("btype_" + case.get("btype", "float"))
         ctx.case(case, nontrivial=len(case["rounds"]) > 0, sample=case if k < 2 else None)
         # a disagreement alone is not a failing input: keep searching (the oracle runs on every state anyway)
         if len(ctx.violations) >= ctx.max_reports or len(ctx.corr_breaks) >= 40:
